@@ -76,4 +76,72 @@ theorem tryLoop_matched (fs : FS) (rc path : Bytes) (fb : Bool) : ∀ (ts : List
       obtain ⟨t', ht', e⟩ := ih' h
       exact ⟨t', by simp [ht'], e⟩
 
+/-! ### the scanning policies -/
+
+theorem scanStep_cases (pol : ScanPolicy) (best : Option (Bytes × Bool × Nat)) (c : Bytes) (n : Node) :
+    scanStep pol best c n = best ∨ ∃ d k, scanStep pol best c n = some (c, d, k) := by
+  unfold scanStep
+  split
+  · left; rfl
+  · split
+    · split
+      · right; exact ⟨_, _, rfl⟩
+      · left; rfl
+    · split
+      · right; exact ⟨_, _, rfl⟩
+      · left; rfl
+    · right; exact ⟨_, _, rfl⟩
+    · split
+      · right; exact ⟨_, _, rfl⟩
+      · left; rfl
+    · right; exact ⟨_, _, rfl⟩
+    · split
+      · right; exact ⟨_, _, rfl⟩
+      · left; rfl
+
+theorem scanCandidates_mem (fs : FS) (pol : ScanPolicy) : ∀ (cs : List Bytes) (best : Option (Bytes × Bool × Nat)) (a : Bytes) (d : Bool) (k : Nat),
+    (scanCandidates fs pol cs best).1 = some (a, d, k) → a ∈ cs ∨ ∃ d' k', best = some (a, d', k') := by
+  intro cs
+  induction cs with
+  | nil => intro best a d k h; simp [scanCandidates] at h; exact Or.inr ⟨d, k, h⟩
+  | cons c rest ih =>
+    intro best a d k h
+    unfold scanCandidates at h
+    rw [withTrace_fst] at h
+    rcases ih _ a d k h with hm | ⟨d', k', hb⟩
+    · left; simp [hm]
+    · rcases scanStep_cases pol best c (fs c) with e | ⟨d2, k2, e⟩
+      · right; rw [e] at hb; exact ⟨d', k', hb⟩
+      · rw [e] at hb; simp at hb; left; simp [hb.1]
+
+theorem scanLoop_mem (fs : FS) (rc path : Bytes) (pol : ScanPolicy) : ∀ (ts : List TryFile) (best : Option (Bytes × Bool × Nat)) (a : Bytes) (d : Bool) (k : Nat),
+    (∀ t ∈ ts, hasMeta (candidatePattern rc t path) = false) →
+    (scanLoop fs rc path pol ts best).1 = some (a, d, k) →
+      (∃ t ∈ ts, a = candidatePattern rc t path) ∨ ∃ d' k', best = some (a, d', k') := by
+  intro ts
+  induction ts with
+  | nil => intro best a d k _ h; simp [scanLoop] at h; exact Or.inr ⟨d, k, h⟩
+  | cons t rest ih =>
+    intro best a d k hm h
+    have hg := fsGlob_nometa fs ((candidatePattern rc t path).length + 1) (candidatePattern rc t path) (hm t (by simp))
+    unfold scanLoop globFuel at h
+    split at h
+    · rename_i cs tr hgl
+      rw [hgl] at hg
+      simp only [appendTrace_fst] at h
+      rcases ih _ a d k (fun t' ht' => hm t' (by simp [ht'])) h with ⟨t', ht', e⟩ | ⟨d', k', hb⟩
+      · left; exact ⟨t', by simp [ht'], e⟩
+      · rcases scanCandidates_mem fs pol cs best a d' k' hb with hmem | hb'
+        · left
+          refine ⟨t, by simp, ?_⟩
+          rcases hg with hg | hg | hg
+          · simp at hg
+          · simp at hg; rw [hg] at hmem; cases hmem
+          · simp at hg; rw [hg] at hmem; simpa using hmem
+        · right; exact hb'
+    · rw [appendTrace_fst] at h
+      rcases ih _ a d k (fun t' ht' => hm t' (by simp [ht'])) h with ⟨t', ht', e⟩ | hb
+      · left; exact ⟨t', by simp [ht'], e⟩
+      · right; exact hb
+
 end CaddyModel.C07
